@@ -94,7 +94,8 @@ def asEnv (j : Json) : Except String Scripted.St := do
     match l with
     | [k, v] => return ((← asStr k), (← asInt v))
     | _ => throw "bad shadow pair") j "shadow"
-  return { envId := envId, script := script, someAttr := sa, depth := depth, shadow := shadow }
+  let rs := (getNat j "reset_style").toOption.getD 0
+  return { envId := envId, script := script, someAttr := sa, depth := depth, shadow := shadow, resetStyle := rs }
 
 def parseOp (op : String) (j : Json) : Except String (Op Int Nat) := do
   match op with
